@@ -1,4 +1,4 @@
-// GENERATED on every run by vlib/extract.py from /tmp/seedcheck-12725 -- do not edit
+// GENERATED on every run by vlib/extract.py from /tmp/rp -- do not edit
 #![allow(unused_imports, unused_variables, unused_mut, dead_code, unused_parens, unused_braces, non_snake_case)]
 use vstd::prelude::*;
 use core::cmp::Ordering;
@@ -316,7 +316,7 @@ pub enum PackageType {
     NuGet,
     PyPI,
 }
-// ---- unit T.PackageError  <= purl/src/package_type.rs:213 ----
+// ---- unit T.PackageError  <= purl/src/package_type.rs:212 ----
 pub enum PackageError {
     MissingRequiredField(PurlField),
     Parse( ParseError),
@@ -603,7 +603,7 @@ pub trait PurlShape: Sized {
 pub fn lowercase_in_place(s: &mut SmallString)
     ensures final(s)@ == lower_seq(old(s)@)
 { unimplemented!() }
-// ---- unit U-pypi.fix_pypi_name  <= purl/src/package_type.rs:272 ----
+// ---- unit U-pypi.fix_pypi_name  <= purl/src/package_type.rs:271 ----
 exec const DASH_CHARACTERS: &'static [char] ensures DASH_CHARACTERS@ =~= seq!['-', '_', '.'] { &['-', '_', '.'] }
 pub fn fix_pypi_name(name: &mut SmallString)
     ensures final(name)@ == pypi_norm(old(name)@)
@@ -646,7 +646,7 @@ lowercase_in_place(name)
     }
 }
 impl PackageType {
-// ---- unit U-ptname.name  <= purl/src/package_type.rs:167 ----
+// ---- unit U-ptname.name  <= purl/src/package_type.rs:166 ----
 pub const fn name(&self) -> (r: &'static str)
         ensures r@ == type_name(*self)
 {
@@ -671,12 +671,12 @@ impl PurlShape for PackageType {
     open spec fn finish_rel(t0: Self, p0: PurlParts, t1: Self, p1: PurlParts, r: Result<(), PackageError>) -> bool {
         pkg_finish_rel(t0, p0, t1, p1, r)
     }
-// ---- unit U-ptname.package_type  <= purl/src/package_type.rs:247 ----
+// ---- unit U-ptname.package_type  <= purl/src/package_type.rs:246 ----
 fn package_type(&self) -> (r: Cow<str>)
 {
         x_cow_from_str(self.name())
     }
-// ---- unit U-ptfin.finish  <= purl/src/package_type.rs:251 ----
+// ---- unit U-ptfin.finish  <= purl/src/package_type.rs:250 ----
 fn finish(&mut self, parts: &mut PurlParts) -> (r: Result<(), Self::Error>)
 {
         proof { lemma_trim_empty_iff_all(parts.namespace@, '/'); }
